@@ -43,8 +43,10 @@ def validate_schema_term_new(hed_entry, hed_term=None):
         hed_term = hed_entry.name
     issues_list = []
     # todo: potentially optimize this someday, as most values are the same
-    character_set = get_allowed_characters_by_name(["name"] +
-                                                   hed_entry.attributes.get("allowedCharacter", "").split(","))
+    allowed_character = hed_entry.attributes.get("allowedCharacter", "")
+    if not isinstance(allowed_character, str):
+        allowed_character = ""  # Written without a value: reported by the attribute checks
+    character_set = get_allowed_characters_by_name(["name"] + allowed_character.split(","))
     indexes = get_problem_indexes(hed_term, character_set)
     for char, index in indexes:
         issues_list += ErrorHandler.format_error(SchemaWarnings.SCHEMA_INVALID_CHARACTERS_IN_TAG,
